@@ -250,6 +250,12 @@ func Universe(quick bool) []Case {
 		}
 	}
 	var cases []Case
+	// every non-negative integer of the sweep once more held by basicnode's uint-backed node
+	for _, v := range ref.Sweep(ref.IntsFull()) {
+		if ref.HasNonNegInt(v) {
+			cases = append(cases, Case{V: v, Impl: "basic-newuint"})
+		}
+	}
 	for _, v := range vals {
 		if !InDomain(v) {
 			continue
